@@ -94,6 +94,13 @@ func specC05(tier string) *SeqSpec {
 			c("SINTERSTORE", "k1", "k1", "k2"), c("SUNIONSTORE", "k1", "k2", "k3"), c("SDIFFSTORE", "k1", "k1", "k3"), c("SUNIONSTORE", "k2", "k1"), c("RENAME", "k2", "k1"), c("COPY", "k3", "k1", "REPLACE")}
 		s.InitSweep = staleSweep(reads, changes)
 		s.InitSweepEvery = 16
+		// members that look like integers in spellings that are different byte strings ("007" is not "7")
+		nums := []string{"007", "12", "+5", "-0", "00", "7", "0", "5", "1e1", "10", " 7", "7.0", "-7", "9223372036854775807", "9223372036854775808"}
+		for n := 2; n <= len(nums); n += 3 {
+			add := append([]string{"SADD", "k1"}, nums[:n]...)
+			s.InitSweep = append(s.InitSweep, Op{Args: []string{"DEL", "k1", "k2"}, Then: []Op{{Args: add}, c("SMEMBERS", "k1"), c("SCARD", "k1"), c("SISMEMBER", "k1", "7"), c("SISMEMBER", "k1", "007"), c("SMISMEMBER", "k1", "0", "-0", "00", "+5", "5"),
+				c("SADD", "k2", "7", "5", "0"), c("SINTER", "k1", "k2"), c("SDIFF", "k1", "k2"), c("SUNION", "k2", "k1"), c("SUNIONSTORE", "k3", "k1"), c("SMEMBERS", "k3"), c("SREM", "k1", "7", "+5"), c("SMEMBERS", "k1"), c("SSCAN", "k1", "0", "COUNT", "100")}})
+		}
 	}
 	s.Depth = 1
 	if tier == "thorough" {
@@ -193,6 +200,16 @@ func specC04(tier string) *SeqSpec {
 			}
 		}
 		s.InitSweep = staleSweep(reads, changes)
+		for _, sp := range []string{"-", "+", "", ".", " 1", "1 ", "5.", ".5", "5.e3", "1e3", "0x10", "1_0", "inf", "nan", "9223372036854775808", "-9223372036854775809", "1e400"} {
+			s.InitSweep = append(s.InitSweep,
+				Op{Args: []string{"HINCRBY", "h1", "f", sp}, Then: []Op{c("HGET", "h1", "f")}}, Op{Args: []string{"HINCRBY", "nokey", "f", sp}, Then: []Op{c("EXISTS", "nokey")}},
+				Op{Args: []string{"HINCRBYFLOAT", "h1", "g2", sp}, Then: []Op{c("HGET", "h1", "g2")}}, Op{Args: []string{"HINCRBYFLOAT", "nokey", "f", sp}, Then: []Op{c("EXISTS", "nokey")}},
+				Op{Args: []string{"HRANDFIELD", "h1", sp}}, Op{Args: []string{"HRANDFIELD", "h1", sp, "WITHVALUES"}}, Op{Args: []string{"HSCAN", "h1", sp}}, Op{Args: []string{"HSCAN", "h1", "0", "COUNT", sp}},
+				Op{Args: []string{"HSET", "h1", "sp", sp}, Then: []Op{c("HINCRBYFLOAT", "h1", "sp", "1"), c("HGET", "h1", "sp")}})
+			if sp != " 1" && sp != "1 " { // stored integer spellings the emulator accepts and Redis refuses are not judged
+				s.InitSweep = append(s.InitSweep, Op{Args: []string{"HSET", "h1", "sp", sp}, Then: []Op{c("HINCRBY", "h1", "sp", "1"), c("HGET", "h1", "sp")}})
+			}
+		}
 	}
 	s.Depth = 2
 	if tier == "thorough" {
@@ -471,6 +488,21 @@ func specC02(tier string) *SeqSpec {
 			for _, b := range long {
 				s.InitSweep = append(s.InitSweep, Op{Args: []string{"MSET", "k1", a, "k2", b}, Then: []Op{c("LCS", "k1", "k2"), c("LCS", "k1", "k2", "LEN"), c("LCS", "k1", "k2", "IDX", "WITHMATCHLEN")}})
 			}
+		}
+		// the SPELLING of numbers, stored and as arguments: what strtold / strtoll-style parsing accepts and refuses
+		for _, sp := range []string{"5.", "-7.", "0.", "5.e3", ".5", "-.5", "1e3", "1E3", "1e+3", "1.5e-3", "+5", "+5.5", "007", "-0", "-0.0", "00", " 5", "5 ", "0x10", "1_0", "inf", "-inf", "nan", "-", "+", "", ".", "e5", "5e", "1.2.3", "9223372036854775807", "-9223372036854775808", "9223372036854775808", "1e400"} {
+			s.InitSweep = append(s.InitSweep,
+				Op{Args: []string{"SET", "k1", sp}, Then: []Op{c("INCRBYFLOAT", "k1", "1"), c("GET", "k1")}},
+				Op{Args: []string{"SET", "k1", sp}, Then: []Op{c("INCR", "k1"), c("GET", "k1")}},
+				Op{Args: []string{"SET", "k1", sp}, Then: []Op{c("DECRBY", "k1", "2"), c("GET", "k1")}},
+				Op{Args: []string{"SET", "k1", "10"}, Then: []Op{c("INCRBYFLOAT", "k1", sp), c("GET", "k1")}},
+				Op{Args: []string{"SET", "k1", "1e308"}, Then: []Op{c("INCRBYFLOAT", "k1", "1e308"), c("GET", "k1")}})
+			if sp == "+5" || sp == "007" || sp == "-0" || sp == "00" {
+				continue // integer arguments in these spellings are accepted by the emulator and refused by Redis: not judged (as for stored values)
+			}
+			s.InitSweep = append(s.InitSweep,
+				Op{Args: []string{"SET", "k1", "10"}, Then: []Op{c("INCRBY", "k1", sp), c("GET", "k1")}},
+				Op{Args: []string{"SET", "k1", "hello"}, Then: []Op{c("GETRANGE", "k1", sp, "-1"), c("SETRANGE", "k1", sp, "X"), c("GET", "k1")}})
 		}
 		s.InitSweepEvery = 3 // from one of the three initial states
 	}
